@@ -1,13 +1,28 @@
 """C13 - relabelling on import is pixel-exact"""
+from contracts import relabel
+
 LEVEL = "other"
-TRUSTED = ["reference semantics written from the property statement (native/pure_bounded.py)"]
-EXPLANATION = ("BOUNDED STAND-IN ONLY (no obligation discharged yet): the real relabel_segmentation is run on every label array of 2 frames x 3 cells over a small label alphabet and every choice of up to 3 detections with node ids from {0,1,2,3,7} (chained/permuted label-id maps, unlisted labels, id 0) and compared with 'source pixels of (time, seg id) relabelled to the node id (+1 if id 0 present), background elsewhere; graph shifted together; input untouched'.")
-ASSUMPTIONS = ["bounded stand-in only: exhaustive/sampled over the stated finite space, not a proof"]
-NOT_UNDER_CONTRACT = ["relabel_segmentation (loop nest over np.unique / dict items: invariants not closed in the engine yet)"]
+TRUSTED = ["numpy models: label video (pyvc/arraymodel.py: a[i] is a view, masked in-place store, zeros_like/astype keep shape) and node-table columns "
+           "(pyvc/vecmodel.py: x in v, v + c, v == c, v[mask], np.unique, dict(zip(a, b)) with last-pair-wins) - mathematical integers",
+           "networkx.relabel_nodes(graph, mapping, copy=False) renames the nodes of `graph` in place as `mapping` says (external; recorded as a ghost event)",
+           "reference semantics of the bounded stand-in written from the property statement (native/pure_bounded.py)"]
+EXPLANATION = ("PROVED (SMT, unbounded - every number of frames, pixels, table rows, every label/id assignment): the real relabel_segmentation against "
+               "E1 'every source pixel of a row's (time, seg id) carries node id + off', E2 'every pixel matching no row is background', E3 'input array "
+               "not written', E4 'graph relabelled in place exactly once with k -> k+1 iff some node id is 0', with off = 1 iff some node id is 0. "
+               "Nested loop invariants: outer loop over np.unique(times) (processed times final, unprocessed frames background, unmatched pixels "
+               "background), inner loop over the items of dict(zip(seg ids, node ids)) of the frame (applied items written, rest background, other "
+               "frames kept); both initial and preserved by the real loop bodies. Preconditions taken from the builder's call site: times are frame "
+               "indices, a (time, seg id) pair names at most one node, ids non-negative. "
+               "BOUNDED STAND-IN (cross-check and the part outside the contract - the builder's decision whether to relabel at all): the real function "
+               "on every 2x3 label array over a small alphabet x every <= 3 detections x id assignments from {0,1,2,3,7}.")
+ASSUMPTIONS = ["mathematical integers: the uint64 conversion of the output is the identity on non-negative ids",
+               "a dask input is computed to the same values (seg_array.compute())"]
+NOT_UNDER_CONTRACT = ["TracksBuilder.handle_segmentation (decides whether relabelling is needed: np.array_equal(seg_ids, node_ids); bounded stand-in c13 covers "
+                      "relabel_segmentation only, the builder path is exercised by C12's bounded import scenarios)"]
 
 
 def units(tier):
-    return []
+    return relabel.units()
 
 
 def bounded(tier, seed):
